@@ -11,6 +11,7 @@ of the real code are part of the model; nothing is totalised away. -/
 inductive Err where
   | valueError | typeError | indexError | zeroDivision | stopIteration
   | unbound | runtimeError | recursion | keyError | assertion
+  | overflowError
   deriving DecidableEq, Repr, Inhabited
 
 def Err.name : Err → String
@@ -19,6 +20,7 @@ def Err.name : Err → String
   | .stopIteration => "StopIteration" | .unbound => "UnboundLocalError"
   | .runtimeError => "RuntimeError" | .recursion => "RecursionError"
   | .keyError => "KeyError" | .assertion => "AssertionError"
+  | .overflowError => "OverflowError"
 
 abbrev Clause := List Int
 abbrev Assign := Nat → Bool
